@@ -95,9 +95,9 @@ prop("C09", [_lazy("strtypes", "rule_det1"), _lazy("strtypes", "rule_det2"), _la
      "arguments, and the CLI applies every disabled name before loading samples (DET-3); every pseudo-type class "
      "implements the full interface and raises what the detector catches (DET-4); on CLI paths no registration "
      "event is reachable after a removal event (DET-5, interprocedural event order).",
-     "that a parser accepts exactly the intended language; FloatString accepting whatever IntString accepts; the "
-     "parse/render/parse round trip; correctness of resolve()'s cover computation (e.g. resolve(Int, Float, Bool) "
-     "dropping Bool is out of reach); exceptions escaping third-party parsers")
+     "that a parser accepts exactly the intended language; replace pairs and renderers are decided against tables of "
+     "confirmed instances (COVER-1, RT-1), not by reasoning about int()/float()/dateutil; the parse/render/parse round "
+     "trip on concrete values")
 
 prop("C06", [_lazy("order", "rule_ord1"), _lazy("order", "rule_ndet1")],
      "Static decision, for every input and every hash seed: each place where an unordered collection (set, "
@@ -189,8 +189,9 @@ prop("C11", [_lazy("emit", "rule_inj2"), _lazy("emit", "rule_inj5"), _lazy("emit
      "and tests the exact label against the black-list last (LABEL-1); every name a generated module can import "
      "is black-listed (SHADOW-1); any model whose name is taken is renamed, unconditionally (DUP-1); the label "
      "cache cannot serve one conversion's result for the other (CACHE-2).",
-     "distinct keys -> distinct names (collision behaviour of unidecode / re.sub / inflection on concrete strings); "
-     "de-duplication of class names happens before sanitising (two raw names can sanitise to one)")
+     "that the de-duplication steps UNIQ-1/UNIQ-2 demand actually separate every colliding pair (decided: they exist, consult "
+     "the names handed out and change the label; not decided: the string arithmetic of the suffixing); behaviour of "
+     "inflection / unidecode on concrete strings")
 
 prop("C03", [_lazy("imports", "rule_imp1"), _lazy("imports", "rule_imp2"), _lazy("imports", "rule_shadow1"), _lazy("imports", "rule_shadow2"),
              _lazy("emit", "rule_label1"), _lazy("emit", "rule_dup1"), _lazy("emit", "rule_fwd1"),
@@ -205,8 +206,9 @@ prop("C03", [_lazy("imports", "rule_imp1"), _lazy("imports", "rule_imp2"), _lazy
      "black-listed as labels (SHADOW-1); label typestate (LABEL-1); taken names are renamed (DUP-1); model "
      "references are quoted dotted names (FWD-1); keys and literal members cannot break the source text "
      "(INJ-2/3); a field has a default iff optional, so required fields precede defaults (SIB-1).",
-     "that the module compiles and every annotation evaluates for each concrete input; uniqueness of sanitised "
-     "names within a scope; behaviour of inflection/unidecode; names that shadow pydantic BaseModel attributes")
+     "that the module compiles and every annotation evaluates for each concrete input; behaviour of "
+     "inflection/unidecode on concrete strings; attribute names of framework base classes whose source is not "
+     "installed here (sqlmodel / SQLAlchemy)")
 
 prop("C04", [_lazy("emit", "rule_sib1"), _lazy("emit", "rule_sib2"), _lazy("emit", "rule_inj2"), _lazy("emit", "rule_inj5"),
              _lazy("emit", "rule_lit"), _lazy("emit", "rule_tbl1"),
